@@ -2,6 +2,7 @@ package main
 
 import (
 	"fmt"
+	"go/token"
 	"sort"
 	"strings"
 
@@ -301,7 +302,84 @@ func checkC14(w *World) {
 	}
 	w.floor(P, "R14.3", 2)
 
-	// R14.4 pairing
+	// R14.4 pairing. The four primitive effects may sit in small helpers of the command (acquireWorker /
+	// releaseWorker ...): a call counts as the effects its callee performs on every path from its entry (must-summary
+	// over static calls inside package main).
+	type fx struct{ send, recv, add, done bool }
+	var must func(fn *ssa.Function, depth int) fx
+	mustCache := map[*ssa.Function]fx{}
+	instrFx := func(in ssa.Instruction, depth int) fx {
+		var r fx
+		switch x := in.(type) {
+		case *ssa.Send:
+			r.send = true
+		case *ssa.UnOp:
+			if x.Op == token.ARROW {
+				r.recv = true
+			}
+		case ssa.CallInstruction:
+			if _, isGo := in.(*ssa.Go); isGo {
+				return r
+			}
+			if sc := x.Common().StaticCallee(); sc != nil {
+				switch funcFullName(sc) {
+				case "(*sync.WaitGroup).Add":
+					if k, ok := constInt(x.Common().Args[1]); ok && k == 1 {
+						r.add = true
+					}
+				case "(*sync.WaitGroup).Done":
+					r.done = true
+				default:
+					if inRepo(sc) && depth < 4 {
+						if _, isDefer := in.(*ssa.Defer); isDefer {
+							r = must(sc, depth+1)
+						} else if sc.Pkg != nil && sc.Pkg.Pkg.Name() == "main" {
+							r = must(sc, depth+1)
+						}
+					}
+				}
+			}
+		}
+		return r
+	}
+	must = func(fn *ssa.Function, depth int) fx {
+		if r, ok := mustCache[fn]; ok {
+			return r
+		}
+		mustCache[fn] = fx{}
+		var r fx
+		if len(fn.Blocks) > 0 {
+			// effects of the blocks that dominate every return
+			var rets []*ssa.BasicBlock
+			for _, b := range fn.Blocks {
+				if len(b.Instrs) > 0 {
+					if _, ok := b.Instrs[len(b.Instrs)-1].(*ssa.Return); ok {
+						rets = append(rets, b)
+					}
+				}
+			}
+			for _, b := range fn.Blocks {
+				all := len(rets) > 0
+				for _, rb := range rets {
+					if !b.Dominates(rb) {
+						all = false
+					}
+				}
+				if !all {
+					continue
+				}
+				for _, in := range b.Instrs {
+					e := instrFx(in, depth)
+					r.send = r.send || e.send
+					r.recv = r.recv || e.recv
+					r.add = r.add || e.add
+					r.done = r.done || e.done
+				}
+			}
+		}
+		mustCache[fn] = r
+		return r
+	}
 	for _, wf := range wl {
 		doneDeferred, releaseDeferred := false, false
 		allInstrs(wf, func(in ssa.Instruction) {
@@ -312,17 +390,9 @@ func checkC14(w *World) {
 			if in.Block() != wf.Blocks[0] {
 				return
 			}
-			if sc := d.Call.StaticCallee(); sc != nil {
-				if funcFullName(sc) == "(*sync.WaitGroup).Done" {
-					doneDeferred = true
-				}
-				// closure that receives from a channel
-				allInstrs(sc, func(in2 ssa.Instruction) {
-					if u, ok := in2.(*ssa.UnOp); ok && u.Op.String() == "<-" {
-						releaseDeferred = true
-					}
-				})
-			}
+			e := instrFx(d, 0)
+			doneDeferred = doneDeferred || e.done
+			releaseDeferred = releaseDeferred || e.recv
 		})
 		w.check(P, "R14.4", "worker "+wf.Name()+" releases on every exit", wf.Pos(), doneDeferred && releaseDeferred, fmt.Sprintf("defers WaitGroup.Done in its entry block: %v; defers the semaphore release: %v", doneDeferred, releaseDeferred))
 	}
@@ -331,16 +401,12 @@ func checkC14(w *World) {
 		b := s.In.Block()
 		idx := instrIndex(s.In)
 		chk := func(in ssa.Instruction) {
-			switch x := in.(type) {
-			case *ssa.Send:
-				acquired = true
-			case *ssa.Call:
-				if sc := staticCallee(x); sc != nil && funcFullName(sc) == "(*sync.WaitGroup).Add" {
-					if k, ok := constInt(x.Call.Args[1]); ok && k == 1 {
-						added = true
-					}
-				}
+			if _, isDefer := in.(*ssa.Defer); isDefer {
+				return
 			}
+			e := instrFx(in, 0)
+			acquired = acquired || e.send
+			added = added || e.add
 		}
 		for i := 0; i < idx; i++ {
 			chk(b.Instrs[i])
